@@ -689,6 +689,9 @@ def sweep(seed, count, nrand=6, eager=10, features=None, collab=None):
 
 
 def main(argv):
+    if argv and argv[0] == 'selftest':
+        from harness import selftest
+        return selftest.run()
     if argv and argv[0] == 'sweep':
         feats = tuple(argv[3].split(',')) if len(argv) > 3 and argv[3] != '-' else None
         collab = json.loads(argv[4]) if len(argv) > 4 else None
